@@ -36,6 +36,8 @@ SEEDS = [
     "if a:  # type: bool\n    b = [1,  # type: int\n         2]\n",
     "def f(a, b):\n    # type: (int, int) -> int\n    return a\n",
     "x = 'page\x0cbreak'\n\x0c\ny = 2\n",
+    # old Mac line ends (bare carriage returns) around a bracketed expression continued on the next line
+    "v = [1,\r     2]\rw = (v +\rv)\r",
 ]
 INS = ['a', '=', '1', '(', ')', ':', '\n', ' ', '\t', "'", '#', '\\', '\x00', '\r', '\x0c', '\u00e9', '"', '\xa0', ',']
 
@@ -217,10 +219,12 @@ def make_sections(tier):
         text = table[si][ctx.choose(len(table[si]), 'edit')]
         pos = ctx.choose(3, 'position')
         fill = fillers[ctx.choose(len(fillers), 'filler')]
+        # the second header is spelled like the first one (a copied part that was not renumbered), or differently
+        marks = [MARK % 1, MARK % (1 if ctx.choose(2, 'same-header') else 2)]
         chunks = [fill, fill, fill]
         chunks[pos] = text if (text.endswith('\n') or text == '') else text + '\n'
         # file: prologue, marker 1, section 1, marker 2, section 2
-        original = chunks[0] + (MARK % 1) + '\n' + chunks[1] + (MARK % 2) + '\n' + chunks[2]
+        original = chunks[0] + marks[0] + '\n' + chunks[1] + marks[1] + '\n' + chunks[2]
         if '\r' in text:
             # CPython counts a bare carriage return as a line end, so "lines of the original file" is ambiguous
             # for such text -- those inputs stay in phases 1/2 (form feed and vertical tab are NOT line ends for
@@ -239,8 +243,10 @@ def make_sections(tier):
                 sections.next_section()
             cur = MAIN_REPORT.submission.main_code
             # what the k-th chunk is, computed from the original text without pedal
-            starts = [0, original.index(MARK % 1) + len(MARK % 1), original.index(MARK % 2) + len(MARK % 2)]
-            ends = [original.index(MARK % 1), original.index(MARK % 2), len(original)]
+            m1 = len(chunks[0])
+            m2 = m1 + len(marks[0]) + 1 + len(chunks[1])
+            starts = [0, m1 + len(marks[0]), m2 + len(marks[1])]
+            ends = [m1, m2, len(original)]
             chunk = original[starts[k]:ends[k]]
             if cur != chunk:
                 ctx.fail({'symptom': 'section text is not the k-th chunk', 'k': k}, file=original, got=cur, want=chunk)
